@@ -43,3 +43,4 @@ CFG = {'level': 'exploration',
  'assumptions': ['ref/refmodfile transcribes the documented semantics of the edit operations correctly',
                  'the strict parser reads the formatted result correctly (guarded by C02/C20)',
                  'operations receive valid arguments only; Cleanup is called before every bulk set and at the end']}
+CFG['level_text'] += ' The edit universe includes a module path spelled `require`, a version pair differing in +incompatible only, and `indirect` markers with other white space than single blanks.'
